@@ -16,10 +16,12 @@ pub struct MonSnap {
     pub touched_hi: usize,
     pub straddles: u64,
     pub log: Option<Vec<Call>>,
+    /// read faults injected by a `Refusing` reader: (absolute offset, length)
+    pub refusals: Vec<(usize, usize)>,
 }
 
 impl MonSnap {
-    fn none() -> MonSnap {
+    pub fn none() -> MonSnap {
         MonSnap {
             calls: 0,
             violations: Vec::new(),
@@ -27,6 +29,7 @@ impl MonSnap {
             touched_hi: 0,
             straddles: 0,
             log: None,
+            refusals: Vec::new(),
         }
     }
     fn take(m: &std::rc::Rc<std::cell::RefCell<Monitor>>) -> MonSnap {
@@ -38,6 +41,7 @@ impl MonSnap {
             touched_hi: m.touched_hi,
             straddles: m.straddles,
             log: m.log.take(),
+            refusals: std::mem::take(&mut m.refusals),
         }
     }
 }
@@ -79,8 +83,11 @@ pub fn decode_msg(
                 mon: MonSnap::none(),
             }
         }),
-        ReaderCfg::Slice | ReaderCfg::Reentrant { .. } => {
+        ReaderCfg::Slice | ReaderCfg::Reentrant { .. } | ReaderCfg::Refusing(_) => {
             let mon = Monitor::new(step_budget(b.len()), keep_log);
+            if let ReaderCfg::Refusing(c) = rcfg {
+                mon.borrow_mut().refuse_cuts = c.clone();
+            }
             let slot = arm_reentry(&mon, rcfg);
             let m2 = mon.clone();
             let r = guard(move || {
@@ -148,8 +155,11 @@ pub fn decode_avps(b: &[u8], rcfg: &ReaderCfg, keep_log: bool) -> Result<AvpsOut
                 mon: MonSnap::none(),
             }
         }),
-        ReaderCfg::Slice | ReaderCfg::Reentrant { .. } => {
+        ReaderCfg::Slice | ReaderCfg::Reentrant { .. } | ReaderCfg::Refusing(_) => {
             let mon = Monitor::new(step_budget(b.len()), keep_log);
+            if let ReaderCfg::Refusing(c) = rcfg {
+                mon.borrow_mut().refuse_cuts = c.clone();
+            }
             let slot = arm_reentry(&mon, rcfg);
             let m2 = mon.clone();
             let r = guard(move || {
@@ -183,6 +193,124 @@ pub fn decode_avps(b: &[u8], rcfg: &ReaderCfg, keep_log: bool) -> Result<AvpsOut
             })
         }
     }
+}
+
+// ---------------------------------------------------------------------------
+// Read faults
+// ---------------------------------------------------------------------------
+
+/// The relaxed oracle for a decode during which the reader declined at least
+/// one `bytes()` request: against the fault-free result `base`, the faulted
+/// result `got` may (a) be the same, (b) be an error list that reports a
+/// read error and otherwise only errors the fault-free decode reports too,
+/// in the same order, or (c) be the same value with declined hidden AVPs
+/// left empty. Wrong data and errors that blame the message are not allowed.
+pub fn read_fault_consistent(
+    base: &Result<SpecMessage, Vec<DecodeError>>,
+    got: &Result<SpecMessage, Vec<DecodeError>>,
+) -> Result<(), String> {
+    let same = match (base, got) {
+        (Ok(a), Ok(b)) => a == b,
+        (Err(a), Err(b)) => a == b,
+        _ => false,
+    };
+    if same {
+        return Ok(());
+    }
+    match got {
+        Err(ge) => {
+            let reads = ge.iter().filter(|e| err_kind(e).is_none()).count();
+            if reads == 0 {
+                return Err(format!(
+                    "the reader declined a request, the decoder reports {} — no read error among them (fault-free result: {})",
+                    errs_text(ge),
+                    result_text(base)
+                ));
+            }
+            let be: &[DecodeError] = match base {
+                Err(b) => b,
+                Ok(_) => &[],
+            };
+            // the other errors: a subsequence of the fault-free ones
+            let mut i = 0;
+            for e in ge.iter().filter(|e| err_kind(e).is_some()) {
+                match be[i..].iter().position(|x| x == e) {
+                    Some(p) => i += p + 1,
+                    None => {
+                        return Err(format!(
+                            "the reader declined a request, the decoder reports {} of which {} is not reported without the fault ({})",
+                            errs_text(ge),
+                            errs_text(std::slice::from_ref(e)),
+                            result_text(base)
+                        ))
+                    }
+                }
+            }
+            Ok(())
+        }
+        Ok(gm) => {
+            let bm = match base {
+                Ok(b) => b,
+                Err(_) => return Err(format!("accepted ({}) only because the reader declined a request; fault-free: {}", result_text(got), result_text(base))),
+            };
+            match (bm, gm) {
+                (
+                    SpecMessage::Control { avps: ba, .. },
+                    SpecMessage::Control { avps: ga, .. },
+                ) if ba.len() == ga.len() => {
+                    let mut b2 = bm.clone();
+                    if let SpecMessage::Control { avps, .. } = &mut b2 {
+                        for (x, g) in avps.iter_mut().zip(ga.iter()) {
+                            if x.is_hidden() && g.is_hidden() && x.attr == g.attr && matches!(&g.val, Val::Hidden(v) if v.is_empty()) {
+                                x.val = Val::Hidden(Vec::new());
+                            }
+                        }
+                    }
+                    if b2 == *gm {
+                        Ok(())
+                    } else {
+                        Err(format!("after a declined request the decoder returns a different value: {} instead of {}", result_text(got), result_text(base)))
+                    }
+                }
+                _ => Err(format!("after a declined request the decoder returns a different value: {} instead of {}", result_text(got), result_text(base))),
+            }
+        }
+    }
+}
+
+/// Was one of the declined requests the payload of a hidden AVP? The
+/// library's handling of that case (it carries on as if the payload were
+/// empty, without skipping it) is outside every property; such runs are not
+/// judged. `refusals` are (offset, length) relative to `b`.
+pub fn hidden_payload_declined(b: &[u8], refusals: &[(usize, usize)]) -> bool {
+    refusals.iter().any(|&(a, n)| {
+        a >= 6 && a <= b.len() && b[a - 6] & AVP_H != 0 && {
+            let l = (((b[a - 6] >> 6) as usize) << 8) | b[a - 5] as usize;
+            l == n + 6
+        }
+    })
+}
+
+/// Discontinuities for a `Refusing` reader over `len` octets.
+pub fn draw_refusing(rng: &mut crate::rng::Rng, len: usize) -> ReaderCfg {
+    let mut cuts = Vec::new();
+    if len > 2 {
+        for _ in 0..rng.urange(1, 4) {
+            cuts.push(rng.urange(1, len - 1));
+        }
+        if rng.chance(1, 3) {
+            // a ring of small pages
+            let p = *rng.pick(&[8usize, 16, 32, 64]);
+            let mut c = p;
+            while c < len && cuts.len() < 64 {
+                cuts.push(c);
+                c += p;
+            }
+        }
+    }
+    cuts.sort_unstable();
+    cuts.dedup();
+    ReaderCfg::Refusing(cuts)
 }
 
 // ---------------------------------------------------------------------------
